@@ -767,9 +767,66 @@ class Interp:
                         items.append(v)
                 yield st1, st1.alloc(SetE(items))
 
+    def _ev_dict_unpacking(self, node, st):
+        """{k: v, **m, ...}: items are evaluated left to right, a later key replaces an earlier equal one; `**m` needs a mapping
+        (dict, or an object read through keys() and m[k] - CPython's PyDict_Update).  Only concrete, plainly hashable keys."""
+        from .attrs import _mapping_or_pairs
+        from . import keyed
+
+        def step(st1, i, acc):
+            if i == len(node.keys):
+                yield st1, st1.alloc(DictE(dict(acc)))
+                return
+            kn, vn = node.keys[i], node.values[i]
+            if kn is None:
+                for st2, m in self.ev(vn, st1):
+                    if isinstance(m, Exc):
+                        yield st2, m
+                        continue
+                    if isinstance(m, Ref) and st2.get(m).kind == "dict":
+                        pairs = list(st2.get(m).items.items())
+                    elif isinstance(m, Ref) and st2.get(m).kind == "obj":
+                        outs = list(self.getattr(m, "keys", st2))
+                        if len(outs) != 1 or isinstance(outs[0][1], Exc) or outs[0][0] is not st2:
+                            raise Unsupported("dict unpacking of an object without a plain keys()")
+                        pairs = _mapping_or_pairs(self, st2, m)
+                    else:
+                        raise Unsupported("dict unpacking of %r" % (m,))
+                    acc2 = list(acc)
+                    for kk, vv in pairs:
+                        if is_z3(kk) or keyed.is_special(self, st2, kk):
+                            raise Unsupported("dict unpacking with symbolic / user-compared keys")
+                        kk = self.hashable(kk)
+                        acc2 = _put(acc2, kk, vv)
+                    yield from step(st2, i + 1, acc2)
+                return
+            for st2, kk in self.ev(kn, st1):
+                if isinstance(kk, Exc):
+                    yield st2, kk
+                    continue
+                for st3, vv in self.ev(vn, st2):
+                    if isinstance(vv, Exc):
+                        yield st3, vv
+                        continue
+                    if is_z3(kk) or keyed.is_special(self, st3, kk):
+                        raise Unsupported("dict unpacking with symbolic / user-compared keys")
+                    yield from step(st3, i + 1, _put(list(acc), self.hashable(kk), vv))
+
+        def _put(acc, kk, vv):
+            # python dict: an existing key keeps its position and takes the new value
+            for j, (a, _) in enumerate(acc):
+                if a == kk:
+                    acc[j] = (a, vv)
+                    return acc
+            acc.append((kk, vv))
+            return acc
+
+        yield from step(st, 0, [])
+
     def ev_Dict(self, node, st):
         if any(k is None for k in node.keys):
-            raise Unsupported("dict unpacking")
+            yield from self._ev_dict_unpacking(node, st)
+            return
         for st1, ks in self.ev_many(node.keys, st):
             if isinstance(ks, Exc):
                 yield st1, ks
@@ -1505,7 +1562,9 @@ class Interp:
         if a.kwarg:
             vars[a.kwarg.arg] = st.alloc(DictE(kwargs))
         elif kwargs:
-            return None, ExcVal(BuiltinClass("TypeError", TypeError), ("unexpected keyword %s" % list(kwargs),))
+            # CPython's message (code in the repo tests for this text): Class.func() got an unexpected keyword argument 'first one'
+            qn = (f.cls.name + "." if f.cls is not None else "") + f.name
+            return None, ExcVal(BuiltinClass("TypeError", TypeError), ("%s() got an unexpected keyword argument '%s'" % (qn, list(kwargs)[0]),))
         return vars, None
 
     def eval_default(self, f, expr, st):
